@@ -3,13 +3,15 @@ C07 - recovering loops and conditionals while decompiling preserves behaviour.
 
 Property theorems about `Decomp.postprocess` (the model of `passes::postprocess_decompiled` with
 `blocks = true`), for ARBITRARY statement lists, i.e. all jump graphs.  Helper lemmas are in
-`Lemmas/Decomp.lean`.  What is proved is the structural half of the property: reconstruction only
-ever consumes untagged jumps without an explicit time, drops only labels nobody refers to any
-more, and leaves every other statement (time labels, instructions, interrupt labels, tagged or
-timed jumps) in place and in order.  The semantic statement is `C07_full` (checked by the
-correspondence and the VM search, not proved).
+`Lemmas/Decomp*.lean`.  Structural half: reconstruction only ever consumes untagged jumps without an
+explicit time, drops only labels nobody refers to any more, and leaves every other statement (time
+labels, instructions, interrupt labels, tagged or timed jumps) in place and in order.  Semantic half
+(`C07_sound_partial`): the reconstructed tree, lowered back to labels and jumps, runs exactly like
+the flat input.  The statement `C07_full` as first written is refuted by two artefact inputs
+(`C07_full_false`); the two hypotheses `C07_sound_partial` adds are exactly those.
 -/
 import TruthModel.Lemmas.Decomp
+import TruthModel.Lemmas.DecompSem
 import TruthModel.Model.DecompSem
 namespace TruthModel.C07
 open TruthModel TruthModel.Decomp List
@@ -251,7 +253,7 @@ theorem desugar_postprocess_partial {ss : Block} (hflat : Flat ss) {n : Nat} (hn
 example : decompileLoop [.atom none (.label 1), .atom none (.ins 5 []), .atom none (.condJump .if_ (.val (.dec 3)) (.goto 1 none))]
     = .ok [.atom none (.label 1), .node (.doWhile 2 (.val (.dec 3))) [.atom none (.ins 5 [])]] := by rfl
 
-/-! ### the full property (not proved) -/
+/-! ### the full property -/
 
 /-- what a run leaves behind: instruction log (opcode, arguments, real time), time, real time, registers -/
 def SameResult (a b : VmState) : Prop :=
@@ -261,17 +263,16 @@ def SameResult (a b : VmState) : Prop :=
 def WellLabelled (ss : Block) : Prop :=
   (∀ l, (labelsL ss).count l ≤ 1) ∧ ∀ l ∈ refsL ss, l ∈ labelsL ss
 
-/-- `C07_full`: for every flat statement list the raiser can produce, the reconstructed tree -
-lowered back to labels and jumps the way the compiler does - runs exactly like the flat list, from
-every initial state, on every difficulty: same instruction log, time, real time and registers,
-and it terminates exactly when the flat list does.
+/-- `C07_full`, as written before the proof was attempted: for every flat statement list, the
+reconstructed tree - lowered back to labels and jumps the way the compiler does - runs exactly like
+the flat list, from every initial state, on every difficulty: same instruction log, time, real time
+and registers, and it terminates exactly when the flat list does.
 
-NOT PROVED.  The machine (`Decomp.run`) and the lowering (`Decomp.lower`) are compared with
-`AstVm` and `desugar_blocks` on every `sem` case of the correspondence check, the statement itself
-is evaluated on the model for every such case (driver output `same`), and searched on the
-implementation (`vm`, `e2e` cases).  Proved instead: the structural theorems above, which are the
-preconditions whose absence the property text names (labels with referrers, jumps with explicit
-times, time labels). -/
+FALSE as it stands (`C07_full_false`), for two reasons that are artefacts of the model's input space
+and not behaviours of the implementation: a flat list may contain a difficulty-tagged `break` (the
+raiser never emits `break`; `postprocess` rejects only untagged ones), and the initial state may have
+a negative time (the VM starts at time 0).  With these two excluded it is a theorem:
+`C07_sound_partial`. -/
 def C07_full : Prop :=
   ∀ (ss out : Block), (∀ s ∈ ss, ∃ d a, s = Stmt.atom d a) → WellLabelled ss → postprocess ss = .ok out →
   ∀ (env : VmEnv) (st : VmState),
@@ -279,5 +280,168 @@ def C07_full : Prop :=
       ∃ fuel' r', run env (lower (maxLabel ss + 1) out) fuel' st = some r' ∧ SameResult r r') ∧
     (∀ fuel' r', run env (lower (maxLabel ss + 1) out) fuel' st = some r' →
       ∃ fuel r, run env (atomsL ss) fuel st = some r ∧ SameResult r r')
+
+/-- the flat list contains no `break` (the raiser never produces one) -/
+def NoBreak (ss : Block) : Prop := ∀ p ∈ atomsL ss, isBrkLeaf p = false
+
+theorem sameResult_refl (r : VmState) : SameResult r r := ⟨rfl, rfl, rfl, fun _ => rfl⟩
+
+theorem nodup_of_count_le_one {l : List Nat} (h : ∀ x, l.count x ≤ 1) : l.Nodup :=
+  List.nodup_iff_count.mpr h
+
+/-- `postprocess_resolved`: the lowering of the reconstructed tree and the flat input have the same
+resolved code: the same non-label statements in the same order (`unless (a op b)` read as
+`if (a negop b)`), every jump going to the same code index. -/
+theorem postprocess_resolved {ss out : Block} (hflat : ∀ s ∈ ss, ∃ d a, s = Stmt.atom d a) (hwl : WellLabelled ss)
+    (hnb : NoBreak ss) (h : postprocess ss = .ok out) :
+    resolve (lower (maxLabel ss + 1) out) = resolve (atomsL ss) := by
+  obtain ⟨a, b, ha, hb, hout⟩ := postprocess_stages h
+  have hnd : (labelsL ss).Nodup := nodup_of_count_le_one hwl.1
+  obtain ⟨hden, hinv⟩ := passes_den hflat hnd hnb ha hb
+  rw [← hout] at hden hinv
+  rw [← hden]
+  -- the labels of the result: pairwise distinct, below the first fresh label, every mentioned one defined
+  have hsub : ∀ l ∈ labelsL out, l ∈ labelsL ss := by
+    intro l hl
+    have h1 := labels_not_duplicated h l
+    have : 0 < (labelsL out).count l := List.count_pos_iff.mpr hl
+    exact List.count_pos_iff.mp (by omega)
+  have hnd' : (labelsL out).Nodup :=
+    nodup_of_count_le_one (fun l => Nat.le_trans (labels_not_duplicated h l) (hwl.1 l))
+  have hlt : ∀ l ∈ labelsL out, l < maxLabel ss + 1 := by
+    intro l hl
+    have : l ≤ maxLabel ss := le_foldl_max _ 0 l (.inl (List.mem_append.mpr (.inl (hsub l hl))))
+    omega
+  have hrefs : ∀ l ∈ refsL out, l ∈ refsL ss := by
+    intro l hl
+    have h1 := (decompileLoop_spec trivial_good0 ha).2.2 l
+    have h2 := (ifElseBlock_step trivial_good0 (rc := refcount a) _ _ _ hb).refs l
+    have h3 : (refsL out).count l ≤ (refsL b).count l := by
+      rw [hout]; unfold removeUnusedLabels decompileBreak
+      rw [unusedL_refs]; exact (breakL_refs _ _ b).count_le l
+    have : 0 < (refsL out).count l := List.count_pos_iff.mpr hl
+    exact List.count_pos_iff.mp (by omega)
+  have hdef : ∀ l ∈ refsL out, l ∈ labelsL out := by
+    intro l hl
+    have h1 := labels_with_referrers_survive h l hl
+    have h2 : 0 < (labelsL ss).count l := List.count_pos_iff.mpr (hwl.2 l (hrefs l hl))
+    exact List.count_pos_iff.mp (by omega)
+  exact resolve_lower hnd' hlt hinv hdef
+
+/-- `C07_sound_partial`: for every flat statement list without `break` in which every label is
+defined at most once and every mentioned label is defined, and every initial state whose time is not
+negative (every register valuation, every difficulty, every `offsetof` / `timeof` interpretation):
+the reconstructed tree, lowered back to labels and jumps, runs exactly like the flat list - it
+terminates iff the flat list does, and then with the same instruction log (opcodes, arguments, real
+times), time, real time and registers (in fact the same final state).  "Partial" only in the two
+extra hypotheses `NoBreak ss` and `0 ≤ st.time`; both are necessary (`nobreak_necessary`,
+`nonneg_time_necessary`). -/
+theorem C07_sound_partial (ss out : Block) (hflat : ∀ s ∈ ss, ∃ d a, s = Stmt.atom d a) (hwl : WellLabelled ss)
+    (hnb : NoBreak ss) (h : postprocess ss = .ok out) (env : VmEnv) (st : VmState) (h0 : 0 ≤ st.time) :
+    (∀ fuel r, run env (atomsL ss) fuel st = some r →
+      ∃ fuel' r', run env (lower (maxLabel ss + 1) out) fuel' st = some r' ∧ SameResult r r') ∧
+    (∀ fuel' r', run env (lower (maxLabel ss + 1) out) fuel' st = some r' →
+      ∃ fuel r, run env (atomsL ss) fuel st = some r ∧ SameResult r r') := by
+  have hres := postprocess_resolved hflat hwl hnb h
+  constructor
+  · intro fuel r hr
+    obtain ⟨fuel', hr'⟩ := (run_congr env hres h0 r).mpr ⟨fuel, hr⟩
+    exact ⟨fuel', r, hr', sameResult_refl r⟩
+  · intro fuel' r' hr'
+    obtain ⟨fuel, hr⟩ := (run_congr env hres h0 r').mp ⟨fuel', hr'⟩
+    exact ⟨fuel, r', hr, sameResult_refl r'⟩
+
+/-- decidable forms of the hypotheses, for examples -/
+def isAtomStmt : Stmt → Bool
+  | .atom _ _ => true
+  | .node _ _ => false
+
+theorem flat_of_all {ss : Block} (h : ss.all isAtomStmt = true) : ∀ s ∈ ss, ∃ d a, s = Stmt.atom d a := by
+  intro s hs
+  have := List.all_eq_true.mp h s hs
+  cases s with
+  | atom d a => exact ⟨d, a, rfl⟩
+  | node k b => cases this
+
+theorem wellLabelled_of {ss : Block} (h1 : (labelsL ss).Nodup) (h2 : ∀ l ∈ refsL ss, l ∈ labelsL ss) : WellLabelled ss :=
+  ⟨List.nodup_iff_count.mp h1, h2⟩
+
+/-- a loop with a cond block inside it and a jump out of the loop -/
+def exampleFlat : Block :=
+  [.atom none (.label 1), .atom none (.condJump .if_ (.bin .eq (.reg 1) (.lit 0)) (.goto 2 none)),
+    .atom none (.ins 5 []), .atom none (.jump (.goto 3 none)), .atom none (.label 2),
+    .atom none (.jump (.goto 1 none)), .atom none (.label 3), .atom none (.ins 7 [])]
+
+-- the hypotheses are satisfiable by a program whose reconstruction has a loop, a cond chain and a `break`
+example : (∀ s ∈ exampleFlat, ∃ d a, s = Stmt.atom d a) ∧ WellLabelled exampleFlat ∧ NoBreak exampleFlat ∧
+    postprocess exampleFlat = .ok [.node (.loop 5) [.node .chain [
+        .node (.arm .if_ (.bin .ne (.reg 1) (.lit 0))) [.atom none (.ins 5 []), .atom none (.jump .brk)]]],
+      .atom none (.ins 7 [])] :=
+  ⟨flat_of_all (by decide), wellLabelled_of (by decide) (by decide), by unfold NoBreak; decide, by rfl⟩
+
+/-! ### both extra hypotheses are necessary; `C07_full` as first written is false -/
+
+def envOn : VmEnv := { tagOn := fun _ => true, labelProp := fun _ _ => 0 }
+def st0 (t : Int) : VmState := { regs := fun _ => 0, time := t, realTime := 0, log := [] }
+
+/-- a difficulty-tagged `break` between a label and a jump back to it: the flat list is stuck at the
+`break` (outside any loop), the reconstruction captures it in a loop and it leaves that loop -/
+def brkFlat : Block := [.atom none (.label 1), .atom (some "E") (.jump .brk), .atom none (.jump (.goto 1 none))]
+def brkOut : Block := [.node (.loop 2) [.atom (some "E") (.jump .brk)]]
+
+theorem brkFlat_stuck : ∀ fuel, run envOn (atomsL brkFlat) fuel (st0 0) = none
+  | 0 => rfl
+  | 1 => rfl
+  | _ + 2 => rfl
+
+/-- `NoBreak` cannot be dropped from `C07_sound_partial` -/
+theorem nobreak_necessary :
+    (∀ s ∈ brkFlat, ∃ d a, s = Stmt.atom d a) ∧ WellLabelled brkFlat ∧ postprocess brkFlat = .ok brkOut ∧
+    0 ≤ (st0 0).time ∧
+    ¬ (∀ fuel' r', run envOn (lower (maxLabel brkFlat + 1) brkOut) fuel' (st0 0) = some r' →
+        ∃ fuel r, run envOn (atomsL brkFlat) fuel (st0 0) = some r ∧ SameResult r r') := by
+  refine ⟨flat_of_all (by decide), wellLabelled_of (by decide) (by decide), by rfl, by decide, ?_⟩
+  intro hall
+  have hsome : (run envOn (lower (maxLabel brkFlat + 1) brkOut) 4 (st0 0)).isSome = true := by rfl
+  obtain ⟨r', hr'⟩ := Option.isSome_iff_exists.mp hsome
+  obtain ⟨fuel, r, hr, _⟩ := hall 4 r' hr'
+  rw [brkFlat_stuck fuel] at hr
+  cases hr
+
+/-- an unreferenced label in front of a time label that goes below zero: executing the label raises a
+negative initial time to 0 (and the real time with it), the reconstruction has dropped the label -/
+def timeFlat : Block := [.atom none (.label 1), .atom none (.absTime (-10)), .atom none (.ins 5 [])]
+def timeOut : Block := [.atom none (.absTime (-10)), .atom none (.ins 5 [])]
+
+theorem timeOut_runs : ∀ fuel r, run envOn (lower (maxLabel timeFlat + 1) timeOut) fuel (st0 (-5)) = some r → r.realTime = 0
+  | 0, r, h => by cases h
+  | 1, r, h => by cases h
+  | 2, r, h => by cases h
+  | n + 3, r, h => by
+    have : run envOn (lower (maxLabel timeFlat + 1) timeOut) (n + 3) (st0 (-5)) =
+        some { regs := fun _ => 0, time := -5, realTime := 0, log := [(0, 5, [])] } := rfl
+    rw [this] at h; cases h; rfl
+
+/-- `0 ≤ st.time` cannot be dropped from `C07_sound_partial` -/
+theorem nonneg_time_necessary :
+    (∀ s ∈ timeFlat, ∃ d a, s = Stmt.atom d a) ∧ WellLabelled timeFlat ∧ NoBreak timeFlat ∧
+    postprocess timeFlat = .ok timeOut ∧
+    ¬ (∀ fuel r, run envOn (atomsL timeFlat) fuel (st0 (-5)) = some r →
+        ∃ fuel' r', run envOn (lower (maxLabel timeFlat + 1) timeOut) fuel' (st0 (-5)) = some r' ∧ SameResult r r') := by
+  refine ⟨flat_of_all (by decide), wellLabelled_of (by decide) (by decide), by unfold NoBreak; decide, by rfl, ?_⟩
+  intro hall
+  have hflat : (run envOn (atomsL timeFlat) 4 (st0 (-5))).map (·.realTime) = some 5 := by rfl
+  obtain ⟨r, hr, hrt⟩ := Option.map_eq_some_iff.mp hflat
+  obtain ⟨fuel', r', hr', hsame⟩ := hall 4 r hr
+  have h0 := timeOut_runs fuel' r' hr'
+  have h1 : r.realTime = r'.realTime := hsame.2.2.1
+  rw [hrt, h0] at h1
+  cases h1
+
+/-- the statement as first written does not hold -/
+theorem C07_full_false : ¬ C07_full := by
+  intro h
+  exact nobreak_necessary.2.2.2.2
+    (h brkFlat brkOut nobreak_necessary.1 nobreak_necessary.2.1 nobreak_necessary.2.2.1 envOn (st0 0)).2
 
 end TruthModel.C07
